@@ -699,6 +699,8 @@ pub enum ParseErrorKind {
     EmptyIncludeFile(String),
     #[error("no such file")]
     FileNotFound,
+    #[error("failed to read file: {0}")]
+    ReadFile(String),
 }
 
 impl ParseErrorKind {
@@ -992,7 +994,8 @@ fn parse_file_inner<T: ColumnType>(loc: Location) -> Result<Vec<Record<T>>, Pars
     if !path.exists() {
         return Err(ParseErrorKind::FileNotFound.at(loc.clone()));
     }
-    let script = std::fs::read_to_string(path).unwrap();
+    let script = std::fs::read_to_string(path)
+        .map_err(|e| ParseErrorKind::ReadFile(e.to_string()).at(loc.clone()))?;
     let mut records = vec![];
     for rec in parse_inner(&loc, &script)? {
         records.push(rec.clone());
